@@ -40,7 +40,9 @@ CLAIMS = {
     "C04": dict(category="other", design_ref="DESIGN.md 5/C04",
         text="Proof: the value the gate compares with zero is, bit by bit, the CRC-24 syndrome (data XOR-sets from polynomial division, "
         "xor PI; masked to the upper 17 bits for DF11) - a GF(2)-linear identity over all 2^112 frames; the accept decision depends on "
-        "every squitter bit (DF11: not on the 7 IC bits) and on no payload bit for other formats; effects dominated by the gate.",
+        "every squitter bit (DF11: not on the 7 IC bits) and on no payload bit for other formats; effects dominated by the gate. "
+        "Bit-serial and table-driven CRCs are both followed (constant tables are evaluated by the driver; a GF(2)-linear table lookup "
+        "stays an exact XOR form, a table with a wrong entry is not linear and is reported).",
         note=TB + "reference CRC division; guarded join (if-conversion) of the XOR domain.",
         technique="XOR-linear abstract interpretation + dependency sets + CFG dominance"),
     "C05": dict(category="other", design_ref="DESIGN.md 5/C05",
@@ -65,7 +67,8 @@ CLAIMS = {
     "C08": dict(category="other", design_ref="DESIGN.md 5/C08",
         text="NECESSARY CONDITIONS ONLY. Decided: position stores happen only under the four non-zero slot tests, |t0-t1|<10 s, decoder "
         "returned a position, zone equality, lat/lon range tests (path-condition atoms); slot index = bit 54, slot fields exact, slot "
-        "time = Utc::now of this update; NL table = closed form; observer/haversine wiring. NOT decided: the numeric CPR decode "
+        "time = Utc::now of this update; NL function evaluated abstractly per zone = closed form; observer/haversine wiring; the distance "
+        "is stored under exactly the conditions of the position store (+ observer configured). NOT decided: the numeric CPR decode "
         "(20 m, zones, antimeridian) and the distance value - floating point, no sound static argument in reach.",
         note=TB + "chrono model; NL closed form.",
         technique="abstract interpretation with symbolic path-condition terms; MIR constant-table audit; def-use trees"),
@@ -84,7 +87,8 @@ CLAIMS = {
     "C11": dict(category="other", design_ref="DESIGN.md 5/C11",
         text="Proof of the per-step clauses to which histories reduce: carrier matrix (changed fields of every context within the "
         "format's allowed set; surface squitter blanks altitude), no stored value depends on the row's previous contents except the "
-        "listed derivations/gates, and re-applying a frame changes nothing (update interpreted twice).",
+        "listed derivations/gates, re-applying a frame changes nothing (update interpreted twice), and every parameter a format "
+        "carries is among the fields its update can store in every option/row-state context.",
         note=TB + "carrier table in sq/rules/c11.py; row isolation from C03.",
         technique="abstract interpretation with symbolic pre-state row (identity of unchanged values, dependency labels)"),
     "C12": dict(category="other", design_ref="DESIGN.md 5/C12",
@@ -105,9 +109,12 @@ CLAIMS = {
         text="Proof, exhaustive over the 32 flag sets and all filled/blank paths, without formatting a string: per flag set the "
         "row writer's CFG is pruned, write! templates (expanded AST) give each site's minimum width, min and max path totals coincide "
         "and equal the header total; ordered row fields equal ordered header names through the column->field table; alignment/blank "
-        "rules per placeholder; refresh layout order.",
+        "rules per placeholder; refresh layout order; position-exact abstract rendering (per-character source sets) of the row under "
+        "every header column; and each optional group's accessor, as a boolean function (truth table) of 'letter l occurs in the "
+        "k-th -i argument' for 3 occurrences x 6 letters, equals the OR of its own letter's occurrences.",
         note=TB + "std::fmt width/alignment semantics; column->field table; an unpadded char/digit counts 1 column.",
-        technique="format-template column algebra over AST format_args facts joined with the MIR CFG"),
+        technique="format-template column algebra over AST format_args facts joined with the MIR CFG; abstract rendering; "
+                  "truth-table abstract interpretation of the option parser"),
     "C15": dict(category="other", design_ref="DESIGN.md 5/C15",
         text="Structural proof: the row vector is only permuted between collect and the printing fold; address sort dominates the "
         "-o sorts; each letter's sort key/comparator closure, read as an expression tree, is an order-embedding (or reversal) of the "
@@ -116,7 +123,7 @@ CLAIMS = {
         technique="def-use expression trees of sort-key closures + call inventory on the row vector"),
     "C16": dict(category="other", design_ref="DESIGN.md 5/C16",
         text="Structural proof: the -f decision dominates every table/counter effect, its predicate is `frame DF not in list` over the "
-        "whole list (recognised forms), skip polarity right; counter step absent->1, n->n+1 from the Entry-API form; counted key is "
+        "whole list (recognised forms: all/any/contains/find/position, binary_search only if the list is sorted), skip polarity right; counter step absent->1, n->n+1 from the Entry-API form; counted key is "
         "the frame's DF, under -c only, ordered map, printed once per entry.",
         note=TB + "Iterator::all/any, slice::contains, BTreeMap semantics.",
         technique="CFG dominance + closure expression trees + API-form recognition on resolved MIR"),
@@ -130,7 +137,8 @@ CLAIMS = {
         technique="interval-partition abstract evaluation of the MIR decision tree vs reference table; def-use provenance"),
     "C18": dict(category="other", design_ref="DESIGN.md 5/C18",
         text="Structural proof: the TCP function has no reachable Return and reaches no exit/abort; a failed connect reaches the next "
-        "attempt only through sleep(3..8 s); the table passed to the line reader is the function's parameter in every iteration; "
+        "attempt only through sleep(3..8 s); the table passed to the line reader is the function's parameter in every iteration and "
+        "nothing else on the connection path has a table/row effect; "
         "Planes::new only in main; main joins the one spawned thread. OS socket behaviour / real pause not decided.",
         note=TB + "std thread/net semantics.",
         technique="CFG reachability/avoidance + def-use provenance + call-site inventory (lib and bin)"),
